@@ -189,5 +189,142 @@ Definition model_obs (c : case) : trace * observed * observed :=
       (tr (ps h2), obs_of h1, obs_of h2)
   end.
 
-(* abbreviations used by the generated case files *)
-Definition K200 := PROXY_TUNNEL_ESTABLISHED_RESPONSE_PKT.
+
+(* ================================================================== examples and the outcome table *)
+Definition ex_flags : flags :=
+  mkFlags (Some (bs "/x/ca.key")) (Some (bs "/certs")) (Some (bs "/x/sign.key")) (Some (bs "/x/ca.pem"))
+          (Some (bs "/x/trust.pem")) false (bs "HTTP/1.1 502 Bad Gateway").
+
+(* a script in which everything but the origin's certificate is fine; requests are forwarded as they are *)
+Definition ex_script (ch : chain) (names : list bytes) : script :=
+  mkScript [bs "::1"; bs "10.1.2.3"] None ch names None (Some [(bs "commonName", bs "up.example")])
+           RTrue RTrue RTrue (FlushSent 39) None
+           [(bs "request-1", [bs "request-1"]); (bs "request-2", [bs "request-2"])] [] [].
+
+Definition events_with (a : list bool) : list event :=
+  [ClientData a (bs "request-1"); FlushUpstream; UpstreamData a (bs "response-1"); FlushClient;
+   ClientData a (bs "request-2"); UpstreamData a (bs "response-2"); FlushUpstream; FlushClient].
+Definition ex_events : list event := events_with [true].
+Definition ex_events_optout : list event := events_with [true; false].
+
+(* ---- the finite outcome table ---- *)
+Record scenario := mkScenario { sn_script : script; sn_flags : flags; sn_answers : list bool; sn_fs0 : list bytes }.
+
+Definition sweep_hosts : list (bytes * bool) :=        (* CONNECT host, is it an IP literal *)
+  [(bs "example.com", false); (bs "10.1.2.3", true); (bs "[::1]", true)].
+
+Definition cert_dir : bytes := bs "/certs".
+Definition pem_of (host : bytes) : bytes := path_join cert_dir (host ++ bs ".pem").
+Definition pub_of (host : bytes) : bytes := path_join cert_dir (host ++ bs ".pub").
+
+Definition sweep_flags : list flags :=
+  flat_map (fun ins =>
+    [mkFlags (Some (bs "/x/ca.key")) (Some cert_dir) (Some (bs "/x/sign.key")) (Some (bs "/x/ca.pem"))
+             (Some (bs "/x/trust.pem")) ins (bs "502");
+     mkFlags (Some (bs "/x/ca.key")) (Some cert_dir) None (Some (bs "/x/ca.pem"))
+             (Some (bs "/x/trust.pem")) ins (bs "502")]) [false; true].
+
+Definition sweep_openssl : list (run_result * run_result * run_result) :=
+  [(RTrue, RTrue, RTrue); (RFalse, RTrue, RTrue); (RTrue, RTrue, RFalse); (RTrue, RRaise TimeoutExpired, RTrue)].
+
+Definition sweep_pipeline : list (bytes * list bytes) :=
+  [(bs "request-1", [bs "request-1"]); (bs "request-2", [bs "request-2"])].
+
+(* the decision tree, branch by branch: an outcome is only varied where the call that produces it is reached *)
+Definition sweep_scripts (hostp : bytes * bool) : list script :=
+  let host := fst hostp in
+  let bare := strip_brackets host in
+  let ips := if snd hostp then [bare] else [] in
+  let good := ChainTrustedBy (bs "/x/trust.pem") in
+  let subj := Some [(bs "commonName", bs "up.example")] in
+  (* the origin cannot be connected *)
+  [mkScript ips (Some OSErrorOther) good [bare] None subj RTrue RTrue RTrue (FlushSent 39) None sweep_pipeline [] []] ++
+  (* the upstream handshake fails whatever the certificate: SSLError-class, OSError-class, other *)
+  map (fun e => mkScript ips None good [bare] (Some e) subj RTrue RTrue RTrue (FlushSent 39) None sweep_pipeline [] [])
+      [SSLEOFError; ConnectionResetError; AssertionError_] ++
+  (* the handshake depends on the certificate and the policy; everything downstream varies *)
+  flat_map (fun ch =>
+  flat_map (fun names =>
+  flat_map (fun peer_ =>
+  flat_map (fun ossl : run_result * run_result * run_result =>
+  flat_map (fun fl_ =>
+  map (fun chs =>
+    mkScript ips None ch names None peer_ (fst (fst ossl)) (snd (fst ossl)) (snd ossl) fl_ chs sweep_pipeline [] [])
+    [None; Some SSLEOFError; Some AssertionError_])
+    [FlushSent 39; FlushSent 10; FlushRaise BrokenPipeError])
+    sweep_openssl)
+    [None; subj])
+    [[bare]; [bs "other.example"]])
+    [good; ChainTrustedBy (bs "/x/other.pem"); ChainUntrusted; ChainExpired].
+
+Definition sweep_table (hostp : bytes * bool) : list scenario :=
+  let host := fst hostp in
+  flat_map (fun sc =>
+  flat_map (fun fl =>
+  flat_map (fun answers =>
+  map (fun fs0 => mkScenario sc fl answers fs0)
+    [[]; [pem_of host]; [pub_of host]])
+    [[]; [true]; [true; false]])
+    sweep_flags)
+    (sweep_scripts hostp).
+
+Definition trace_eqb := list_eqb effect_eqb.
+Definition is_none {A} (o : option A) : bool := match o with None => true | Some _ => false end.
+Definition all_tagged (b : bool) (w : list (bool * bytes)) : bool := forallb (fun x => Bool.eqb (fst x) b) w.
+
+(* the statements of Props/C11.v as boolean tests of one scenario *)
+Definition sweep_check (hostp : bytes * bool) (sn : scenario) : bool :=
+  let host := fst hostp in
+  let bare := strip_brackets host in
+  let sc := sn_script sn in
+  let fl := sn_flags sn in
+  let a := sn_answers sn in
+  let evs := events_with a in
+  let h := sim_run sc fl host 443 a (sn_fs0 sn) evs in
+  let s := ps h in
+  let engaged := tls_intercept_enabled_ fl a in
+  let connected := is_none (sc_connect sc) in
+  let chain_ok := match sc_chain sc with ChainTrustedBy t => obytes_eqb (ca_file fl) (Some t) | _ => false end in
+  let cert_good := chain_ok && mem_bytes bare (sc_names sc) in
+  let raises := negb (is_none (sc_transport sc)) || (negb (insecure_tls_interception fl) && negb cert_good) in
+  let any_tls := is_tls_cl (cl s) || is_tls_up (up s) ||
+                 negb (all_tagged false (cl_wire s)) || negb (all_tagged false (up_wire s)) in
+  let reqs := bs "request-1" ++ bs "request-2" in
+  let resps := bs "response-1" ++ bs "response-2" in
+  let alt := if snd hostp then bs "IP:" ++ bare else bs "DNS:" ++ host in
+  (* never trust a bad upstream / any failed upstream handshake: nothing relayed, torn down *)
+  implb (connected && engaged && raises)
+        (list_eqb bytes_eqb (up_buf s) [] && bytes_eqb (wire_bytes (up_wire s)) [] &&
+         list_eqb bytes_eqb (map snd (cl_wire s) ++ cl_buf s) [K200] && all_tagged false (cl_wire s) &&
+         trace_eqb (tr s) [EConnect host 443; EClientQueue K200; EUpstreamWrap (policy_call fl host)] &&
+         (mode_code (mode h) =? 3)) &&
+  (* TLS towards anybody only after a handshake that passed under the policy *)
+  implb any_tls (connected && engaged && negb raises) &&
+  (* the policy *)
+  forallb (fun e => match e with EUpstreamWrap c => wrap_call_eqb c (policy_call fl host) | _ => true end) (tr s) &&
+  Nat.leb (count_up_wraps (tr s)) 1 &&
+  (* opt-out / off: opaque tunnel *)
+  implb (connected && negb engaged)
+        (trace_eqb (tr s) [EConnect host 443; EClientQueue K200] && (cl_code (cl s) =? 0) && (up_code (up s) =? 1) &&
+         all_tagged false (cl_wire s) && all_tagged false (up_wire s) &&
+         bytes_eqb (wire_bytes (up_wire s) ++ concat (up_buf s)) reqs &&
+         bytes_eqb (wire_bytes (cl_wire s) ++ concat (cl_buf s)) (K200 ++ resps)) &&
+  (* certificate names the host, cache respected *)
+  forallb (fun e =>
+    match e with
+    | EOpenssl (CmdReqX509 _ k out _ cfg he) =>
+        bytes_eqb out (pub_of host) && he &&
+        bytes_eqb cfg (LF :: bs "[PROXY]" ++ LF :: bs "subjectAltName=" ++ alt)
+    | EOpenssl (CmdSign cc ck _ out _ ext) =>
+        bytes_eqb out (pem_of host) && bytes_eqb ext (LF :: bs "subjectAltName=" ++ alt) &&
+        obytes_eqb (Some cc) (ca_cert_file fl) && obytes_eqb (Some ck) (ca_key_file fl)
+    | EClientWrap k cert => bytes_eqb cert (pem_of host) && obytes_eqb (Some k) (ca_signing_key_file fl)
+    | _ => true
+    end) (tr s) &&
+  implb (mem_bytes (pem_of host) (sn_fs0 sn)) (forallb (fun e => negb (is_openssl e)) (tr s)) &&
+  (* established: the exchange happens inside TLS on both sides, the response returns intact *)
+  implb (is_tls_cl (cl s))
+        ((mode_code (mode h) =? 0) && is_tls_up (up s) &&
+         bytes_eqb (channel true (up_wire s)) reqs && bytes_eqb (channel false (up_wire s)) [] &&
+         bytes_eqb (wire_bytes (cl_wire s)) (K200 ++ resps) &&
+         mem_bytes (pem_of host) (fs s)).
